@@ -6,6 +6,7 @@ import Lcapy.Model.Fp
 import Lcapy.Model.DT
 import Lcapy.Spec.DT
 import Lcapy.Generated.DTSeq
+import Lcapy.Model.DTSel
 namespace Lcapy.Driver.C13
 open Lcapy Lcapy.DT
 
@@ -81,14 +82,6 @@ def parseDTerm {α : Type} (f : String → Option α) : List String → Option (
 
 def parseDSig {α : Type} (f : String → Option α) (toks : List String) : Option (List (DTerm α)) :=
   if toks.isEmpty then some [] else (splitOnTok ";" toks).mapM (parseDTerm f)
-
-/-- the model of `nseq.ZT` / `zseq.IZT` selected by the flags regenerated from the source text
-    (`Generated/DTSeq.lean`): list position (the code as it is: finding F27) or sequence index -/
-def seqZTModel (vals : List CRat) (n0 : Int) (z : CRat) : List CRat :=
-  if Lcapy.Generated.DTSeq.ztUsesSequenceIndex then seqZT vals n0 z else seqZTPy vals z
-
-def seqIZTModel (terms : List CRat) (n0 : Int) (z : CRat) : List CRat :=
-  if Lcapy.Generated.DTSeq.iztUsesSequenceIndex then pdilateFrom z (zpowK z n0) terms else seqIZTPy terms z
 
 def handle (toks : List String) : Option String :=
   match toks with
@@ -230,16 +223,14 @@ def handle (toks : List String) : Option String :=
   | ["seq.zt", z, n0, vs] => some <| Id.run do
       match parseCRat z, n0.toInt?, parseList parseCRat vs with
       | some z, some n0, some vs =>
-        let i0 : Int := if Lcapy.Generated.DTSeq.ztKeepsIndices then n0 else 0
-        s!"{i0} {listStr toString (seqZTModel vs n0 z)}"
+        s!"{seqZTIndex n0} {listStr toString (seqZTModel vs n0 z)}"
       | _, _, _ => "bad-op"
   -- model: zseq.IZT of nseq.ZT (round trip), reply `<first index> <values>`
   | ["seq.iztzt", z, n0, vs] => some <| Id.run do
       match parseCRat z, n0.toInt?, parseList parseCRat vs with
       | some z, some n0, some vs =>
-        let i0 : Int := if Lcapy.Generated.DTSeq.ztKeepsIndices then n0 else 0
-        let j0 : Int := if Lcapy.Generated.DTSeq.iztKeepsIndices then i0 else 0
-        s!"{j0} {listStr toString (seqIZTModel (seqZTModel vs n0 z) i0 z)}"
+        let i0 := seqZTIndex n0
+        s!"{seqIZTIndex i0} {listStr toString (seqIZTModel (seqZTModel vs n0 z) i0 z)}"
       | _, _, _ => "bad-op"
   -- spec: the defining sums of the literal sequence at z: `<bilateral Σ x[n] z^-n> <unilateral Σ_{n≥0} x[n] z^-n>`
   | ["seq.ztspec", z, n0, vs] => some <| Id.run do
